@@ -127,7 +127,7 @@ static void v_build(void)
 	method = &iv_fd_poll_method_epoll_timerfd;
 	__CPROVER_assume(verif_in.eintr <= 2);
 	k_eintr_budget = verif_in.eintr;
-	k_ctl_calls = 0; k_ctl_bad = 0;
+	k_ctl_calls = 0; k_ctl_bad = 0; k_ctl_refuse = 0;
 	g_lock_held = 0; g_lock_acq = 0; g_lock_obj = &iv_fd_epoll_active_fd_mutex;
 	__CPROVER_assume(verif_in.numobjs >= 0 && verif_in.numobjs < 100000);
 	v_state.numobjs = verif_in.numobjs;
@@ -260,8 +260,13 @@ void h_event_rx_on(void)
 
 	v_build_kick();
 	k_ep[2].present = 0;
+	/* the kernel may refuse the kick registration (watch limit, memory) */
+	__CPROVER_assume(verif_in.ctl_fail == 0 || verif_in.ctl_fail == ENOSPC || verif_in.ctl_fail == ENOMEM);
+	k_ctl_refuse = verif_in.ctl_fail;
 	g_track_kick_create = 1;
 	r = iv_fd_epoll_event_rx_on(&v_state);
+	k_ctl_refuse = 0;
+	__CPROVER_assert(IFF(r == 0, verif_in.ctl_fail == 0), "[C08,C15] the verdict of the kick registration is passed on: on refusal the caller falls back to the raw transport");
 	g_track_kick_create = 0;
 	__CPROVER_assert(g_kick_created_unlocked == 0, "[C08,C07,C14] the process-wide kick descriptor is created (and published) inside the critical section that counted its first user: a thread that registers in between must not find the count raised and the descriptor missing");
 	__CPROVER_assert(iv_active_fd_refcount == verif_in.refcount + 1, "[C18] the shared descriptor is reference counted");
